@@ -298,6 +298,17 @@ def char_damage_case(rec, pvl, reader, key, tier, holder, base_text=None):
         judge_by_laws(rec, pvl, reader, t, wit, holder, "char-level")
 
 
+def _depth(text):
+    d = m = 0
+    for c in text:
+        if c in "({":
+            d += 1
+            m = max(m, d)
+        elif c in ")}":
+            d -= 1
+    return m
+
+
 def judge_by_laws(rec, pvl, reader, t, wit, holder, ref):
     """No reference verdict for *t*: a load that returns must satisfy the
     trace laws, a load that raises must raise a documented type."""
@@ -314,6 +325,9 @@ def judge_by_laws(rec, pvl, reader, t, wit, holder, ref):
         for kind, detail in trace_laws(tr, res):
             rec.violation(CHECK, reader, kind, {"family": family, "ref": ref},
                           wit, detail)
+    elif st == "RecursionError" and _depth(t) > 30:
+        # beyond ordinary nesting depth (C06 states the exclusion)
+        rec.count("deep_nesting_excluded")
     elif st not in ("LexerError", "ParseError", "timeout"):
         rec.violation(CHECK, reader, "ill-formed-text-raises-undocumented-type",
                       {"family": family, "ref": ref, "lib": st}, wit,
